@@ -885,6 +885,214 @@ Definition gGop (v : value) : gop :=
   match gN (nth_v 0 v) with 0 => GSet i a (gS (nth_v 3 v)) | _ => GRead i a end.
 
 (* ------------------------------------------------------------------ *)
+(* timestamps and the lazy reload of Value.__call__: registry._lastModified (set by every
+   open_registry) against the node's _lastModified (set by setName and by EVERY _setValue, inherited
+   or not); `config reload` = open_registry WITHOUT clear (entries that left the file stay in _cache);
+   `config reset channel/network` = node._setValue(parent.value, inherited=True) and, since the
+   repair of C15.F29, registry._cache.pop(node._name, None).
+   A second, richer session model; the one above is its no-reload/no-reset fragment.
+   Time is a counter: every operation happens at a fresh instant. *)
+Record tnode : Type := mktn { tn_v : pv; tn_set : bool; tn_lm : nat }.
+Record tvar : Type := mktv { tv_v : pv; tv_lm : nat; tv_nodes : list (path * tnode) }.
+Record tworld : Type := mktw { w_clk : nat; w_glm : nat; w_cache : cache; w_file : list (str * str); w_vars : list tvar }.
+
+Fixpoint tn_get (p : path) (l : list (path * tnode)) : option tnode :=
+  match l with [] => None | (q, x) :: l' => if path_eqb p q then Some x else tn_get p l' end.
+Fixpoint tn_put (p : path) (x : tnode) (l : list (path * tnode)) : list (path * tnode) :=
+  match l with
+  | [] => [(p, x)]
+  | (q, y) :: l' => if path_eqb p q then (q, x) :: l' else (q, y) :: tn_put p x l'
+  end.
+Definition t_val (tv : tvar) (p : path) : pv :=          (* node.value, the raw attribute *)
+  match p with [] => tv_v tv | _ => match tn_get p (tv_nodes tv) with Some x => tn_v x | None => tv_v tv end end.
+Definition t_lm (tv : tvar) (p : path) : nat :=
+  match p with [] => tv_lm tv | _ => match tn_get p (tv_nodes tv) with Some x => tn_lm x | None => O end end.
+Definition t_flag (tv : tvar) (p : path) : bool :=
+  match tn_get p (tv_nodes tv) with Some x => tn_set x | None => false end.
+Definition t_parent (p : path) : path := match p with [n; _] => [n] | _ => [] end.
+Definition t_parent_val (tv : tvar) (p : path) : pv :=
+  match p with
+  | [n; _] => match tn_get [n] (tv_nodes tv) with Some x => tn_v x | None => tv_v tv end
+  | _ => tv_v tv
+  end.
+
+(* parent.get(child) at instant [now] *)
+Definition tensure (d : decl) (C : cache) (now : nat) (tv : tvar) (p : path) : res tvar :=
+  match tn_get p (tv_nodes tv) with
+  | Some _ => Ok tv
+  | None =>
+      do v0 <- k_reparse (d_kind d) (d_dflt d) (t_parent_val tv p);
+      match cache_get (join_names (d_ns d ++ p)) C with
+      | Some x => do v <- k_settext (d_kind d) v0 x;
+                  Ok (mktv (tv_v tv) (tv_lm tv) (tv_nodes tv ++ [(p, mktn v true now)]))
+      | None => Ok (mktv (tv_v tv) (tv_lm tv) (tv_nodes tv ++ [(p, mktn v0 false now)]))
+      end
+  end.
+Fixpoint tensure_all (d : decl) (C : cache) (now : nat) (tv : tvar) (ps : list path) : res tvar :=
+  match ps with [] => Ok tv | p :: ps' => do tv1 <- tensure d C now tv p; tensure_all d C now tv1 ps' end.
+
+(* is node q an unset node that node p pushes its value to?  (_supplyDefault chain) *)
+Definition follows (tv : tvar) (p q : path) : bool :=
+  match p, q with
+  | [], [_] => negb (t_flag tv q)
+  | [], [n; _] => negb (t_flag tv q) && negb (t_flag tv [n]) && match tn_get [n] (tv_nodes tv) with Some _ => true | None => false end
+  | [n], [n'; _] => seq_eqb (lower n) (lower n') && negb (t_flag tv q)
+  | _, _ => false
+  end.
+(* node._setValue(v, inherited) at instant [now]: value, flag, timestamp; unset nodes below follow
+   (their _setValue(v, inherited=True) refreshes their timestamp too) *)
+Definition t_setvalue (tv : tvar) (p : path) (v : pv) (inherited : bool) (now : nat) : tvar :=
+  let push := map (fun e : path * tnode => if follows tv p (fst e) then (fst e, mktn v false now) else e) in
+  match p with
+  | [] => mktv v now (push (tv_nodes tv))
+  | _ => mktv (tv_v tv) (tv_lm tv) (push (tn_put p (mktn v (negb inherited) now) (tv_nodes tv)))
+  end.
+
+(* node(): the lazy reload of Value.__call__ *)
+Definition tcall (d : decl) (C : cache) (glm now : nat) (tv : tvar) (p : path) : res (tvar * pv) :=
+  if Nat.ltb (t_lm tv p) glm then
+    match cache_get (join_names (d_ns d ++ p)) C with
+    | Some x => do v <- k_settext (d_kind d) (t_val tv p) x; Ok (t_setvalue tv p v false now, v)
+    | None => Ok (tv, t_val tv p)
+    end
+  else Ok (tv, t_val tv p).
+
+(* getSpecific(network, channel)() *)
+Definition tread (d : decl) (C : cache) (glm now : nat) (tv : tvar) (a : addr) : res (tvar * pv) :=
+  match a with
+  | AG => tcall d C glm now tv []
+  | AC c => do tv1 <- tensure d C now tv [c]; tcall d C glm now tv1 [c]
+  | AN n => do tv1 <- tensure d C now tv [n]; tcall d C glm now tv1 [n]
+  | ANC n c =>
+      do tv1 <- tensure_all d C now tv [[n]; [n; c]; [c]];
+      if t_flag tv1 [n] || t_flag tv1 [n; c] then tcall d C glm now tv1 [n; c] else tcall d C glm now tv1 [c]
+  end.
+Definition twrite (d : decl) (C : cache) (now : nat) (tv : tvar) (a : addr) (text : str) : res tvar :=
+  do tv1 <- tensure_all d C now tv (addr_paths a);
+  let p := last (addr_paths a) [] in
+  match k_settext (d_kind d) (t_val tv1 p) text with
+  | Ok v => Ok (t_setvalue tv1 p v false now)
+  | Raise InvalidRegistryValue => Ok tv1
+  | Raise e => Raise e
+  end.
+(* plugins/Config: reset channel [net] chan / reset network net *)
+Definition treset (d : decl) (C : cache) (now : nat) (tv : tvar) (a : addr) : res tvar :=
+  match a with
+  | AG => Ok tv
+  | AC c => do tv1 <- tensure d C now tv [c]; Ok (t_setvalue tv1 [c] (tv_v tv1) true now)
+  | AN n => do tv1 <- tensure d C now tv [n]; Ok (t_setvalue tv1 [n] (tv_v tv1) true now)
+  | ANC n c =>
+      do tv1 <- tensure_all d C now tv [[n]; [n; c]];
+      let tv2 := t_setvalue tv1 [n; c] (t_val tv1 [n]) true now in
+      do tv3 <- tensure d C now tv2 [c];
+      Ok (t_setvalue tv3 [c] (tv_v tv3) true now)
+  end.
+(* close(): getValues() first lists the base and the nodes with _wasSet; then every one is serialized.
+   Value.__str__ and SeparatedListOf.__str__ go through self() -- the lazy reload happens while saving;
+   String.__str__ and ValidQuotes.__str__ read self.value *)
+Definition str_calls (k : kind) : bool :=
+  match k with KBoolean | KInteger _ | KSpaceList _ | KCommaList _ => true | _ => false end.
+Fixpoint tsave_nodes (d : decl) (C : cache) (glm now : nat) (tv : tvar) (ps : list path)
+  : res (tvar * list (str * str)) :=
+  match ps with
+  | [] => Ok (tv, [])
+  | p :: ps' =>
+      do r <- (if str_calls (d_kind d) then tcall d C glm now tv p else Ok (tv, t_val tv p));
+      do rest <- tsave_nodes d C glm now (fst r) ps';
+      Ok (fst rest, (join_names (d_ns d ++ p), str_of (d_kind d) (snd r)) :: snd rest)
+  end.
+Definition tsave_var (d : decl) (C : cache) (glm now : nat) (tv : tvar) : res (tvar * list (str * str)) :=
+  tsave_nodes d C glm now tv
+    ([] :: flat_map (fun e : path * tnode => if tn_set (snd e) then [fst e] else []) (tv_nodes tv)).
+Fixpoint tsave_all (D : list decl) (C : cache) (glm now : nat) (vs : list tvar) : res (list tvar * list (str * str)) :=
+  match D, vs with
+  | d :: D', tv :: vs' =>
+      do r <- tsave_var d C glm now tv;
+      do rest <- tsave_all D' C glm now vs';
+      Ok (fst r :: fst rest, snd r ++ snd rest)
+  | _, _ => Ok (vs, [])
+  end.
+
+Inductive top2 : Type :=
+| TSet (var : nat) (a : addr) (text : str)
+| TRead (var : nat) (a : addr)
+| TReset (var : nat) (a : addr)
+| TSave
+| TReload
+| TForget (var : nat) (a : addr).    (* registry._cache.pop(node._name, None) alone (part of TReset since the repair of C15.F29) *)
+
+Definition cache_del (k : str) (c : cache) : cache :=
+  filter (fun kv : str * str => negb (seq_eqb (lower k) (lower (fst kv)))) c.
+(* the cache entries the reset commands drop: the node's own name (and <var>.#chan for reset channel net chan) *)
+Definition reset_names (d : decl) (a : addr) : list str :=
+  match a with
+  | AG => []
+  | AC c => [join_names (d_ns d ++ [c])]
+  | AN n => [join_names (d_ns d ++ [n])]
+  | ANC n c => [join_names (d_ns d ++ [n; c]); join_names (d_ns d ++ [c])]
+  end.
+Definition reset_forget (d : decl) (a : addr) (c : cache) : cache :=
+  fold_left (fun acc k => cache_del k acc) (reset_names d a) c.
+Definition tv_dflt : tvar := mktv (PS []) O [].
+Fixpoint trun (D : list decl) (w : tworld) (ops : list top2) : res (tworld * list pv) :=
+  match ops with
+  | [] => Ok (w, [])
+  | o :: ops' =>
+      let now := S (w_clk w) in
+      do wr <- match o with
+               | TSet i a x =>
+                   do vs <- nth_upd i (fun tv => twrite (nth i D dflt_decl) (w_cache w) now tv a x) (w_vars w);
+                   Ok (mktw now (w_glm w) (w_cache w) (w_file w) vs, [])
+               | TRead i a =>
+                   do r <- tread (nth i D dflt_decl) (w_cache w) (w_glm w) now (nth i (w_vars w) tv_dflt) a;
+                   do vs <- nth_upd i (fun _ => Ok (fst r)) (w_vars w);
+                   Ok (mktw now (w_glm w) (w_cache w) (w_file w) vs, [snd r])
+               | TReset i a =>
+                   (* changroup._setValue(parent.value, inherited=True); registry._cache.pop(changroup._name, None) *)
+                   do vs <- nth_upd i (fun tv => treset (nth i D dflt_decl) (w_cache w) now tv a) (w_vars w);
+                   Ok (mktw now (w_glm w) (reset_forget (nth i D dflt_decl) a (w_cache w)) (w_file w) vs, [])
+               | TSave =>
+                   do r <- tsave_all D (w_cache w) (w_glm w) now (w_vars w);
+                   Ok (mktw now (w_glm w) (w_cache w) (snd r) (fst r), [])
+               | TForget i a =>
+                   Ok (mktw now (w_glm w)
+                            (cache_del (join_names (d_ns (nth i D dflt_decl) ++ last (addr_paths a) [])) (w_cache w))
+                            (w_file w) (w_vars w), [])
+               | TReload =>
+                   do kvs <- open_registry (file_text (w_file w));
+                   Ok (mktw now now (fold_left (fun c kv => cache_put (fst kv) (snd kv) c) kvs (w_cache w))
+                            (w_file w) (w_vars w), [])
+               end;
+      do rest <- trun D (fst wr) ops';
+      Ok (fst rest, snd wr ++ snd rest)
+  end.
+Definition tvar_of (now : nat) (st : vstate) : tvar :=
+  mktv (vbase st) now (map (fun e : path * (pv * bool) => (fst e, mktn (fst (snd e)) (snd (snd e)) now)) (vnodes st)).
+(* one process: load the file (instant 1), register every variable (instant 2), run, save at the end *)
+Definition tsession (D : list decl) (file : list (str * str)) (ops : list top2) : res (list (str * str) * list pv) :=
+  do kvs <- open_registry (file_text file);
+  let C := cache_of kvs in
+  do sts <- mapM (fun d => load_var d C) D;
+  do r <- trun D (mktw 2 1 C file (map (tvar_of 2) sts)) (ops ++ [TSave]);
+  Ok (w_file (fst r), snd r).
+Fixpoint tgenerations (D : list decl) (file : list (str * str)) (gens : list (list top2))
+  : list (res (list (str * str) * list pv)) :=
+  match gens with
+  | [] => []
+  | ops :: gens' =>
+      match tsession D file ops with
+      | Ok r => Ok r :: tgenerations D (fst r) gens'
+      | Raise e => [Raise e]
+      end
+  end.
+Definition gTop2 (v : value) : top2 :=
+  let i := N.to_nat (gN (nth_v 1 v)) in
+  let a := gAddr (nth_v 2 v) in
+  match gN (nth_v 0 v) with
+  | 0 => TSet i a (gS (nth_v 3 v)) | 1 => TRead i a | 2 => TReset i a | 3 => TSave | 4 => TReload | _ => TForget i a
+  end.
+
+(* ------------------------------------------------------------------ *)
 (* NormalizedString: normalize, set, and the wrapped value lines of serialize().
    textwrap.wrap is NOT modelled: its result (the list of chunks) is an explicit input. *)
 Definition is_nsep (c : N) : bool := (c =? SP) || (c =? TAB) || (c =? LF) || (c =? CR).
@@ -938,6 +1146,7 @@ Definition norm_reload (name : str) (chunks : list str) (fresh : str) : res str 
    5 text             -> open_registry text
    6 (kind dflt init ops) -> outcomes of the history on the tree
    7 (decls gens) -> per generation: the saved lines and the values read, or the error
+   9 (decls gens) -> like 7 with timestamps, reset, save and reload operations
    8 (name chunks fresh text value) -> NormalizedString: wrapped file text, its open_registry, the reloaded value,
      norm_set text, the text handed to textwrap for value *)
 Definition run (v : value) : value :=
@@ -961,6 +1170,8 @@ Definition run (v : value) : value :=
          let t0 := mktree pv (gPV (nth_v 2 p)) [] [] in
          let '(_, rs) := run_ops pv (k_reparse k dflt) (k_settext k) t0 (map gOp (gL (nth_v 3 p))) in
          L (map (vR vPV) rs)
+  | 9 => L (map (vR (fun r : list (str * str) * list pv => L [L (map vKV (fst r)); L (map vPV (snd r))]))
+              (tgenerations (map gDecl (gL (nth_v 0 p))) [] (map (fun g => map gTop2 (gL g)) (gL (nth_v 1 p)))))
   | 8 => let name := gS (nth_v 0 p) in
          let chunks := gLS (nth_v 1 p) in
          L [vS (wrapped_text name chunks); vR (fun l => L (map vKV l)) (open_registry (wrapped_text name chunks));
